@@ -310,6 +310,35 @@ def run(ctx):
     from . import c02_layout
     c02_layout.run(ctx, w5, w3)
 
+    # ---- variable byte integer arithmetic (specification 1.5.5): constants and their roles
+    def _binops(v):
+        out = []
+        for (i, j, s_) in v.stmts():
+            if s_['k'] == 'assign' and s_['rv'].get('k') == 'bin' and not prims.is_log_mac(s_.get('mac', '')):
+                rv_ = s_['rv']
+                cb = rv_['b'].get('val') if rv_['b'].get('k') == 'const' else None
+                out.append((rv_['op'], cb, show(v.rvalue_expr(rv_, i)), i))
+        return out
+
+    evv = ctx.fn('encode::encode_vli')
+    bo = _binops(evv)
+    ctx.ob(sorted((op, c) for op, c, txt, i in bo if op in ('BitAnd', 'Rem', 'Div', 'BitOr')) in ([('BitAnd', 127), ('BitOr', 128), ('Div', 128)], [('BitOr', 128), ('Div', 128), ('Rem', 128)]),
+           'encode_vli emits value mod 128, divides by 128 and sets bit 7 on all but the last byte (%s)' % sorted((op, c) for op, c, txt, i in bo if op in ('BitAnd', 'Rem', 'Div', 'BitOr')), 'vbi|encode|constants', loc=evv.loc(), rule='R-C02-1')
+    orr = [i for op, c, txt, i in bo if op == 'BitOr']
+    ctx.ob(len(orr) == 1 and prims.guarded_any(evv, orr[0], [r'^!\(val == 0\)$']), 'encode_vli sets the continuation bit exactly when more bytes follow', 'vbi|encode|continuation', loc=evv.loc(), rule='R-C02-1')
+    rmax = prims.rets_after(evv, [r'^\(MAXIMUM_VARIABLE_LENGTH_INTEGER as u32 < value\)$'])
+    ctx.ob(rmax == {'Err'}, 'encode_vli refuses values above 268435455 (%s)' % sorted(rmax or ['test not found']), 'vbi|encode|max', loc=evv.loc(), rule='R-C02-1')
+
+    ee = ctx.fn('Encoder::encode')
+    rc_ = prims.rets_after(ee, [r'^VecDeque::is_empty\(self\.steps\)$'])
+    rf_ = prims.rets_after(ee, [r'^!VecDeque::is_empty\(self\.steps\)$'])
+    rvs_ = [show(e) for b, e in prims.ret_variants(ee)]
+    ok = any('EncodeResult::Complete' in x for x in rvs_) and any('EncodeResult::Full' in x for x in rvs_)
+    comp_b = [b for b, e in prims.ret_variants(ee) if 'EncodeResult::Complete' in show(e)] or [i for (i, j, s_) in ee.stmts() if s_['k'] == 'assign' and 'EncodeResult::Complete' in show(ee.rvalue_expr(s_['rv'], i))]
+    full_b = [b for b, e in prims.ret_variants(ee) if 'EncodeResult::Full' in show(e)] or [i for (i, j, s_) in ee.stmts() if s_['k'] == 'assign' and 'EncodeResult::Full' in show(ee.rvalue_expr(s_['rv'], i))]
+    ok = bool(comp_b) and bool(full_b) and all(prims.guarded_any(ee, b, [r'^VecDeque::is_empty\(self\.steps\)$']) for b in comp_b) and all(prims.guarded_any(ee, b, [r'^!VecDeque::is_empty\(self\.steps\)$']) for b in full_b)
+    ctx.ob(ok, 'Encoder::encode reports Complete exactly when no step is left and Full otherwise', 'encode-result', loc=ee.loc(), rule='R-C02-6')
+
 
     # ---------------------------------------------------------------- R-C02-12 (added after seed C02-2)
     ctx.rule('R-C02-12', 'T9 value flow', 'what is encoded is what was prepared: the packet given to the encoder is the one that was validated and the one whose topic-alias resolution the encoder receives (the PUBREL of an operation in its PUBREL phase, else the operation\'s packet)')
@@ -321,8 +350,13 @@ def run(ctx):
     ctx.ob(ok, 'one encoder-setup, one alias-resolution and one last-chance validation site in the service loop', 'prepared|sites', loc=sq.loc())
     if ok:
         pk = show(er[0].arg(1))
-        ctx.ob(show(rc[0].arg(1)) == pk, 'the alias resolution is computed for the packet that is encoded (`%s` vs `%s`)' % (show(rc[0].arg(1)), pk), 'prepared|alias-input', loc=rc[0].loc())
-        ctx.ob(show(va[0].arg(0)) == pk, 'the validated packet is the packet that is encoded (`%s` vs `%s`)' % (show(va[0].arg(0)), pk), 'prepared|validated', loc=va[0].loc())
+        same_value = lambda c_: True
+        if re.match(r'^\w+$', pk):
+            # a re-assignable local: the same *definitions* must reach all three uses (the value may be switched to the PUBREL in between)
+            rd_e = prims.reaching_defs(sq, pk, er[0].bb)
+            same_value = lambda c_: prims.reaching_defs(sq, pk, c_.bb) == rd_e
+        ctx.ob(show(rc[0].arg(1)) == pk and same_value(rc[0]), 'the alias resolution is computed for the packet that is encoded (`%s` vs `%s`, same reaching definitions)' % (show(rc[0].arg(1)), pk), 'prepared|alias-input', loc=rc[0].loc())
+        ctx.ob(show(va[0].arg(0)) == pk and same_value(va[0]), 'the validated packet is the packet that is encoded (`%s` vs `%s`, same reaching definitions)' % (show(va[0].arg(0)), pk), 'prepared|validated', loc=va[0].loc())
         inits = [(b, show(e)) for b, e in var_inits(sq, pk)] if re.match(r'^\w+$', pk) else []
         OPX = r'^\(?(?:Option::unwrap\(HashMap::get\(self\.operations, (?P<k>.+)\)\)|\(HashMap::get\(self\.operations, (?P<k2>.+)\)\)@Some\.0)\)?'
         plain = [re.match(OPX + r'\.packet\)?$', x) for b, x in inits]
